@@ -108,7 +108,12 @@ def finish(prop, tier, seed, units, results, wall, verbose=False, partial=False,
         key = (rec['_task']['unit'], rec['_task']['case'].split('|')[0], rec['clause'])
         if key in reported and not verbose:
             continue
-        rp = RP.replay_record(rec.get('function'), rec.get('counterexample'), rec.get('replay_info'), rec.get('clause'))
+        if rec.get('candidate') and not rec.get('replay_info'):
+            # a candidate model is not a model of the full hypotheses: the engine-predicted output under it means nothing,
+            # so only a property-specific replay (history / oracle on the real code) may confirm it
+            rp = dict(status='not-replayable', detail='candidate model only (quantifier-free part of the hypotheses)')
+        else:
+            rp = RP.replay_record(rec.get('function'), rec.get('counterexample'), rec.get('replay_info'), rec.get('clause'))
         if rec.get('candidate') and rp['status'] != 'confirmed':
             # a candidate model (quantifier-free part only) that does not replay is not a refutation: undecided
             # (unless a sound refutation of the same clause exists, e.g. from the bounded mode)
